@@ -788,6 +788,14 @@ def explore(tier, seed, res=None, replay=None):
                     why = f"resolved to {impl_view}, the documented order gives {spec_view}"
                 res.failures.append({"case": case, "impl": out, "expected": spec, "why": why,
                                      "finding": None})
+        if desc.get("reuse") and impl_view == "PREV":
+            # (the statement's order is given for integer `env`; whatever the Environment object
+            # holds, a value that only an EARLIER call's extra_namespace bound is in none of the
+            # scopes of this call: "a name defined in none of these raises instead of resolving to
+            # something else")
+            res.failures.append({"case": case, "impl": out, "expected": model, "finding": None,
+                                 "why": "resolved to the value bound by the extra_namespace of an "
+                                        "earlier call that used the same Environment object"})
         n_def = len(desc.get("subset", "")) + (2 * (N_FRAMES - 1) if desc.get("decoys") else 0)
         if n_def >= 2 or n_def == 0 or desc["kind"] in ("deep", "env_type"):
             res.nontrivial.add(json.dumps(desc, sort_keys=True))
